@@ -13,7 +13,8 @@
 // Concretisation table (abstract class -> bytes), all choices seeded:
 //   tid   ok32: 32 lower-case hex, non-zero | ok16: 16 hex, non-zero (expected id = 8 zero bytes + value)
 //         zero32 / zero16: all '0' | otherlen: 1..31 hex digits, not 16 | long: 33..64 hex digits
-//         nonhex: 32 or 16 chars, 1..3 of them non-hex (never the format's separator) | empty | absent
+//         nonhex: 32 or 16 chars, 1..3 of them ANY byte that is neither a hex digit nor the format's
+//         separator (uniform over all such values; swept completely by the "sweep" cases) | empty | absent
 //   sid   ok: 16 hex non-zero | zero | short: 1..15 | long: 17..40 | nonhex | empty | absent
 //   smp   "1" "0" "d" | missing: field / header not sent | emptyfield: "tid-sid-" | other: one of kOtherSmp
 //   par   none | p16: "-"+16 hex | junk: "-"+garbage
@@ -34,8 +35,6 @@ namespace trace = opentelemetry::trace;
 namespace ctxns = opentelemetry::context;
 typedef opentelemetry::context::propagation::TextMapPropagator Propagator;
 
-static const std::vector<unsigned char> kNonHexAny = {'g', 'G', 'x', 'z', ' ', '\t', 0x00, 0x80, 0xff, '+', '.', '_',
-                                                      '@', '`', '/', '\n', 0x7f, 'O', 'l', 0xc3, '%', '='};
 static const std::vector<std::string> kOtherSmp   = {"2", "D", "true", "false", "01", "11", "x", "00", "1 ", " 1",
                                                    std::string(1, '\0'), "\xc3\xa9", "9", "a", "f", "3", "10", "T"};
 
@@ -60,21 +59,16 @@ static void force_letters(Rng &r, std::string &s, uint8_t *bytes)
   s[b]     = kLower[10 + r.below(6)];
   from_hex(s, bytes);
 }
-static std::string nonhex_field(Rng &r, size_t n, char sep)
+// sep: the format's separator (never used as the bad byte), -1 = none
+static std::string nonhex_field(Rng &r, size_t n, int sep)
 {
   std::string s = hexdigits(r, n);
-  for (uint32_t k = 1 + r.below(3); k > 0; --k)
-  {
-    unsigned char c;
-    do
-      c = r.pick(kNonHexAny);
-    while (char(c) == sep);
-    s[r.below(uint32_t(n))] = char(c);
-  }
+  for (uint32_t k = bad_count(r, 3); k > 0; --k)
+    s[bad_pos(r, n)] = char(bad_byte(r, BC_NONHEX, sep));
   return s;
 }
 // the 128-bit id a documented form denotes is returned in `id` (for ok32 / ok16)
-static std::string tid_field(Rng &r, const std::string &cls, uint8_t *id, bool letters, char sep)
+static std::string tid_field(Rng &r, const std::string &cls, uint8_t *id, bool letters, int sep)
 {
   memset(id, 0, 16);
   if (cls == "ok32")
@@ -111,13 +105,13 @@ static std::string tid_field(Rng &r, const std::string &cls, uint8_t *id, bool l
     return hexdigits(r, c == 0 ? 33 : c == 1 ? 34 : c == 2 ? 64 : r.range(33, 64));
   }
   if (cls == "nonhex")
-    return nonhex_field(r, r.coin() ? 32 : 16, sep);
+    return nonhex_field(r, sweep().on || r.coin() ? 32 : 16, sep);
   if (cls == "empty" || cls == "absent")
     return "";
   fprintf(stderr, "harness: unknown trace-id class %s\n", cls.c_str());
   exit(9);
 }
-static std::string sid_field(Rng &r, const std::string &cls, uint8_t *id, char sep)
+static std::string sid_field(Rng &r, const std::string &cls, uint8_t *id, int sep)
 {
   memset(id, 0, 8);
   if (cls == "ok")
@@ -251,8 +245,8 @@ static Headers render(const json &cs, Rng &r)
     }
     uint8_t tid[16], sid[8];
     const std::string mode = m["cs"], smp = m["smp"];
-    std::string t = tid_field(r, m["tid"], tid, mode != "lower", 0);
-    std::string d = sid_field(r, m["sid"], sid, 0);
+    std::string t = tid_field(r, m["tid"], tid, mode != "lower", -1);
+    std::string d = sid_field(r, m["sid"], sid, -1);
     int forced    = 0;
     recase(t, mode, r, forced);
     recase(d, mode, r, forced);
@@ -275,7 +269,7 @@ static Headers render(const json &cs, Rng &r)
   const std::string mode = j["cs"], st = j["st"], par = j["par"], fl = j["fl"];
   std::string t = tid_field(r, j["tid"], h.tid, mode != "lower", ':');
   std::string d = sid_field(r, j["sid"], h.sid, ':');
-  std::string p = par == "0" ? "0" : par == "p16" ? hexdigits(r, 16) : par == "empty" ? "" : nonhex_field(r, r.range(1, 16), ':');
+  std::string p = par == "0" ? "0" : par == "p16" ? hexdigits(r, 16) : par == "empty" ? "" : nonhex_field(r, sweep().on ? 16 : r.range(1, 16), ':');
   std::string f;
   if (fl == "hex2")
   {
@@ -287,7 +281,7 @@ static Headers render(const json &cs, Rng &r)
   else if (fl == "empty")
     f = "";
   else if (fl == "nonhex")
-    f = nonhex_field(r, r.range(1, 2), ':');
+    f = nonhex_field(r, sweep().on ? 2 : r.range(1, 2), ':');
   else if (fl == "long")
     f = hexdigits(r, r.range(3, 5));
   else
@@ -413,50 +407,40 @@ static json run_rt(long id, int inst, const json &cs, Rng &r)
   return res;
 }
 
-static int replay(const char *path, uint64_t seed, int n)
+// the single bad-byte site of a sweep case: its byte class, separator and number of positions
+static bool sweep_site(const json &cs, ByteClass &cls, unsigned &npos, int &sep, std::string &name)
 {
-  auto cases = read_cases(path);
-  for (auto &cs : cases)
-  {
-    long id  = cs["id"].get<long>();
-    bool rt  = cs["k"] == "rt";
-    json out = {{"id", id}, {"v", "ok"}, {"n", n}};
-    int valid = 0, unchanged = 0, devs = 0;
-    for (int inst = 0; inst < n; ++inst)
+  if (cs["k"] != "x")
+    return false;
+  const json &car = cs["car"];
+  int sites       = 0;
+  cls             = BC_NONHEX;
+  auto site       = [&](bool is, unsigned n, int sp, const char *nm) {
+    if (is)
     {
-      Rng r(mix(seed, uint64_t(id), uint64_t(inst)));
-      json res = rt ? run_rt(id, inst, cs, r) : run_x(id, inst, cs, r);
-      if (res.value("kind", "") == "valid")
-        ++valid;
-      if (res.value("kind", "") == "unchanged")
-        ++unchanged;
-      if (!res["ok"].get<bool>())
-      {
-        out["v"]    = "bad";
-        out["inst"] = inst;
-        out["res"]  = res;
-        break;
-      }
-      if (res.value("dev", false))
-      {
-        if (devs++ == 0)
-        {
-          out["v"]   = "dev";
-          out["res"] = res;
-        }
-      }
-      else if (res.contains("concrete") && !out.contains("res"))
-        out["res"] = res;
+      ++sites;
+      npos = n;
+      sep  = sp;
+      name = nm;
     }
-    out["valid"]     = valid;
-    out["unchanged"] = unchanged;
-    std::cout << out.dump() << std::endl;
+  };
+  if (cs["fmt"] == "b3")
+  {
+    bool sp = car["s"]["p"] == "present";
+    site(sp && car["s"]["tid"] == "nonhex", 32, '-', "s.tid=nonhex");
+    site(sp && car["s"]["sid"] == "nonhex", 16, '-', "s.sid=nonhex");
+    site(car["m"]["tid"] == "nonhex", 32, -1, "m.tid=nonhex");
+    site(car["m"]["sid"] == "nonhex", 16, -1, "m.sid=nonhex");
   }
-  current_case().clear();
-  std::cout << "{\"done\":" << cases.size() << "}" << std::endl;
-  return 0;
+  else
+  {
+    site(car["j"]["tid"] == "nonhex", 32, ':', "j.tid=nonhex");
+    site(car["j"]["sid"] == "nonhex", 16, ':', "j.sid=nonhex");
+    site(car["j"]["par"] == "nonhex", 16, ':', "j.par=nonhex");
+    site(car["j"]["fl"] == "nonhex", 2, ':', "j.fl=nonhex");
+  }
+  return sites == 1;
 }
-
 
 // ---- code -> spec: record real executions, every byte abstracted to a token -----------------------------
 static int token_of(unsigned char c)
@@ -516,14 +500,14 @@ static std::string mutate(Rng &r, std::string h)
       case 0:
       case 1:
         if (n)
-          h[r.below(uint32_t(n))] = r.pick(kPool);
+          h[r.below(uint32_t(n))] = r.below(3) ? r.pick(kPool) : char(r.next());  // 1/3: any of the 256 byte values
         break;
       case 2:
         if (n)
           h.erase(r.below(uint32_t(n)), 1);
         break;
       case 3:
-        h.insert(r.below(uint32_t(n + 1)), 1, r.pick(kPool));
+        h.insert(r.below(uint32_t(n + 1)), 1, r.below(3) ? r.pick(kPool) : char(r.next()));
         break;
       case 4:
         if (n)
@@ -687,7 +671,7 @@ int main(int argc, char **argv)
 {
   install_death_callback();
   if (argc >= 5 && std::string(argv[1]) == "replay")
-    return replay(argv[2], strtoull(argv[3], nullptr, 10), atoi(argv[4]));
+    return replay_cases(argv[2], strtoull(argv[3], nullptr, 10), atoi(argv[4]), run_rt, run_x, sweep_site);
   if (argc >= 4 && std::string(argv[1]) == "record")
     return record(strtoull(argv[2], nullptr, 10), atol(argv[3]));
   fprintf(stderr, "usage: c16_b3jaeger replay <cases.ndjson> <seed> <n> | record <seed> <n>\n");
